@@ -62,6 +62,21 @@ func (s *unicastSubjectImpl[T]) Subscribe(destination Observer[T]) Subscription 
 func (s *unicastSubjectImpl[T]) SubscribeWithContext(subscriberCtx context.Context, destination Observer[T]) Subscription {
 	subscription := NewSubscriber(destination)
 
+	// The teardown that detaches the observer takes the subject's lock. It is registered once
+	// that lock has been released (this defer runs after the unlock below): a subscriber that
+	// closed while it received the backlog runs the teardown at once.
+	attached := false
+
+	defer func() {
+		if attached {
+			subscription.Add(func() {
+				s.mu.Lock()
+				s.observer = nil
+				s.mu.Unlock()
+			})
+		}
+	}()
+
 	s.mu.Lock()
 	defer s.mu.Unlock()
 
@@ -88,12 +103,7 @@ func (s *unicastSubjectImpl[T]) SubscribeWithContext(subscriberCtx context.Conte
 	s.values = []lo.Tuple2[context.Context, T]{}
 
 	s.observer = subscription
-
-	subscription.Add(func() {
-		s.mu.Lock()
-		s.observer = nil
-		s.mu.Unlock()
-	})
+	attached = true
 
 	return subscription
 }
